@@ -57,10 +57,12 @@ def field(row, i, default=0):
 
 
 # ------------------------------------------------------------------------------ strategies
+DELAY_TABLE = [0, 0, 1, 1, 1, 2, 2, 3, 4, 5, 6, 8, 10, 12, 16, 20, 24, 32, 40, 48, 64, 80, 96, 128, 160, 200, 250, 300]
+
+
 def delay_ticks(maxd=300):
-    hi = max(2, maxd)
-    return st.one_of(st.integers(0, 3), st.integers(1, min(12, hi)), st.integers(min(8, hi), min(60, hi)),
-                     st.integers(min(40, hi), hi))
+    """Skewed table of delays (ticks): mostly a few ticks, sometimes long enough to straddle retries/timeouts."""
+    return st.sampled_from([d for d in DELAY_TABLE if d <= maxd] or [0, 1])
 
 
 def net_strategy(tier, lossy=True, parts=True, maxd=300, horizon=1024, n_delays=None):
